@@ -1,5 +1,5 @@
 //! `rawpkh` engine (C01 stage): decoded scripts with raw key hashes (`Terminal::RawPkH`) nested under
-//! or_b/or_d/or_i/or_c/and_v/and_b/andor/thresh, in Segwitv0 (compressed keys) and Legacy (compressed and
+//! or_b/or_d/or_i/or_c/and_v/and_b/andor/thresh, in Segwitv0 (compressed keys), Tap (x-only keys) and Legacy (compressed and
 //! uncompressed keys), satisfied in both modes through a satisfier whose THREE lookups are driven by
 //! independent masks: `lookup_ecdsa_sig` (sigs), `lookup_raw_pkh_pk` (rpk), `lookup_raw_pkh_ecdsa_sig` (rsig).
 //! Output: Coq source (definitions of RawPkhCasesGen.v) — the decoded AST, the implementation's script
